@@ -171,6 +171,9 @@ func (c *Connect) Unpack(r io.Reader) (err error) {
 	if !c.WillFlag && c.WillQos != 0 { //[MQTT-3.1.2-11]
 		return codes.ErrMalformed
 	}
+	if c.WillQos > Qos2 { //[MQTT-3.1.2-14]
+		return codes.ErrMalformed
+	}
 	c.WillRetain = (1 & (connectFlags >> 5)) > 0
 	if !c.WillFlag && c.WillRetain { //[MQTT-3.1.2-11]
 		return codes.ErrMalformed
